@@ -899,7 +899,25 @@ def run(prog, rep, tier):
                 somes.append(bb)
     early = [bb for bb in somes if not all(fb_.dominates(x, bb) for x in by_size)]
     rep.examined(R816, fb_.path + "|candidate-set", sample={"by_name_arms": len(arm_heads), "by_size_tests": len(by_size), "returns_of_the_set": len(somes), "returns_that_can_skip_a_by_size_test": len(early)})
-    if len(by_size) < 10 or not somes:
+    # table form: one by-size test inside a loop over a constant table of layouts.  "Every test ran" then
+    # means: the set is returned only after the loop has been left (no return from inside the loop).
+    looped = []
+    for bb in by_size:
+        for (_s, h_) in fb_.back_edges():
+            if bb in fb_.loop_blocks(h_) or bb == h_:
+                looped.append((bb, h_))
+    if looped:
+        for (tb_, h_) in looped:
+            lb_ = set(fb_.loop_blocks(h_)) | {h_}
+            inside = [bb for bb in somes if bb in lb_]
+            after = [bb for bb in somes if bb not in lb_ and fb_.dominates(h_, bb)]
+            rep.examined(R816, fb_.path + "|candidate-set|table-loop", sample={"by_size_test_in_loop_at_line": fb_.blocks[tb_].get("l"), "returns_inside_the_loop": len(inside), "returns_after_the_loop": len(after)})
+            if inside or len(after) != len(somes):
+                rep.violation(R816, fb_.path + "|candidate-set|early-return", "filesz_to_types can return the candidate layouts before the loop over all by-size tests has finished; a file that also fits a later layout of the table is then decoded with the wrong one")
+        if not somes:
+            raise CheckerError("R8.16: no return of the candidate set")
+        early = []
+    elif len(by_size) < 10 or not somes:
         raise CheckerError("R8.16: %d by-size tests, %d returns of the candidate set" % (len(by_size), len(somes)))
     if early:
         rep.violation(R816, fb_.path + "|candidate-set|early-return", "filesz_to_types can return the candidate layouts before all by-size tests ran (when the file name already suggested a fitting layout); "
